@@ -15,13 +15,13 @@ EXPLANATION = ('`c11_equals_fresh`: for every well-formed program, any initial i
 ASSUMPTIONS = ['bodies are deterministic', 'one accumulator type', 'no eviction / untracked reads / cycles in this model (stage S2)']
 
 def ties(ctx):
-    n = 1500 if ctx.tier == 'quick' else 150000
+    n = 6000 if ctx.tier == 'quick' else 150000
     return [run_seq(ctx, 'acc', n, model='coreacc', corpus='COREACC')]
 
 def search(ctx, reason):
     t = run_seq(ctx, 'acc', 300000, seed_offset=78, tag='search-acc')
     for f in t.failures:
-        if f.kind == 'oracle':
+        if f.kind == 'oracle' and f.key not in listed_keys():
             return f
     return None
 
